@@ -65,10 +65,31 @@ def corpus(tier):
                     continue
                 cfg = K.merge([per[k][len(sub) % len(per[k])] for k in sub])
                 out.append(K.render(sh, cfg, 'each' if r % 2 else 'one'))
+        # nine to twelve traits on one item: one configuration per group, with / without the coupled partners, and with one group left out
+        groups = sorted({g for g, _ in keys})
+        for pmode in ('all', 'none', 'alt'):
+            pick = []
+            for gi, g in enumerate(groups):
+                wantp = {'all': True, 'none': False, 'alt': bool(gi % 2)}[pmode]
+                k = (g, wantp) if (g, wantp) in per else ((g, False) if (g, False) in per else (g, True))
+                pick.append(k)
+            for drop in [None] + (list(range(len(pick))) if pmode == 'all' else []):
+                sub = [k for j, k in enumerate(pick) if j != drop]
+                for rot in (0, 1):
+                    cfg = K.merge([per[k][(len(sub) + rot) % len(per[k])] for k in sub])
+                    out.append(K.render(sh, cfg, 'each' if rot else 'one'))
     # inputs whose handling consults names the templates use (state that could leak between expansions)
     for ident in ('__H', '__H_', 'H', 'T'):
         out.append('#[derive(Educe)] #[educe(Hash, Debug)] struct Ty<%s>(%s);' % (ident, ident))
         out.append('#[derive(Educe)] #[educe(Hash)] enum Ty<%s, const N: usize> { A(%s), B { x: [u8; N] } }' % (ident, ident))
+    # enums that differ only in their explicit discriminants (same name, same variant count): anything remembered from one expansion shows in the next
+    for nv in (2, 3, 4):
+        pats = [list(range(1, nv + 1)), list(range(nv, 0, -1)), [((i + 1) % nv) * 10 for i in range(nv)], [-(i * i) - 1 for i in range(nv)], [5] + [None] * (nv - 1), [None] * (nv - 1) + [-9]]
+        for ts in ('PartialEq, PartialOrd', 'PartialEq, Eq, PartialOrd, Ord', 'PartialEq, Eq, Ord'):
+            for payload in (False, True):
+                for pat in pats:
+                    vs = ', '.join('V%d%s%s' % (i, ('(u8)' if payload and i % 2 == 0 else ''), '' if d is None else ' = %d' % d) for i, d in enumerate(pat))
+                    out.append('#[derive(Educe)] %s#[educe(%s)] enum Ty { %s }' % ('#[repr(i8)] ' if payload else '', ts, vs))
     seen, uniq = set(), []
     for t in out:
         if t not in seen:
@@ -166,7 +187,7 @@ def check(v, tier):
     for t in inputs[::max(1, n // 5)][:5]:
         v.sample({'input': t})
     return v.finish('corpus: every declaration order of 2..4 Into targets on three shapes with field-level markers, refused multi-target requests, every trait-group '
-                    'configuration and merged groups of 2/3/5/all groups on the catalogue shapes, inputs naming template identifiers; schedule: hash seed s in 0..S (LD_PRELOAD '
+                    'configuration and merged groups of 2/3/5/all groups on the catalogue shapes, inputs naming template identifiers, items with nine to twelve traits, enums differing only in their explicit discriminants; schedule: hash seed s in 0..S (LD_PRELOAD '
                     'getrandom shim, verified per run: same seed => same canary order; S grown until canary maps showed 6/6 and 24/24 (quick >= 22/24) iteration orders), one '
                     'fresh process per seed, history = the whole corpus forwards, then backwards, then every third input twice in a row; oracle: status, canonical token '
                     'string (item order included) and message identical to the reference (seed 0, first position); non-trivial = input expanding to >= 2 items',
